@@ -557,11 +557,17 @@ fn load_sheet_rels<R: Read + std::io::Seek>(
     let mut comments = Vec::new();
     // relationship id ("rId4") -> target of the hyperlink
     let mut hyperlinks = HashMap::new();
-    let v: Vec<&str> = path.split("/worksheets/").collect();
-    let mut path = v[0].to_string();
-    path.push_str("/worksheets/_rels/");
-    path.push_str(v[1]);
-    path.push_str(".rels");
+    let (base, file_name) = path.split_once("/worksheets/").ok_or_else(|| {
+        XlsxError::Xml(format!("Unsupported worksheet path: '{path}'"))
+    })?;
+    // Target="../comments1.xml" is relative to the worksheets folder
+    let resolve = |target: &str| -> Result<String, XlsxError> {
+        target
+            .strip_prefix("..")
+            .map(|rest| format!("{base}{rest}"))
+            .ok_or_else(|| XlsxError::Xml(format!("Unsupported relationship target: '{target}'")))
+    };
+    let path = format!("{base}/worksheets/_rels/{file_name}.rels");
     let file = archive.by_name(&path);
     if file.is_err() {
         return Ok((comments, hyperlinks));
@@ -580,23 +586,20 @@ fn load_sheet_rels<R: Read + std::io::Seek>(
     for rel in rels {
         let t = get_attribute(&rel, "Type")?.to_string();
         if t.ends_with("comments") {
-            let mut target = get_attribute(&rel, "Target")?.to_string();
-            // Target="../comments1.xlsx"
-            target.replace_range(..2, v[0]);
+            let target = resolve(get_attribute(&rel, "Target")?)?;
             comments = load_comments(archive, &target)?;
         } else if t.ends_with("hyperlink") {
             let id = get_attribute(&rel, "Id")?.to_string();
             let target = get_attribute(&rel, "Target")?.to_string();
             hyperlinks.insert(id, target);
         } else if t.ends_with("table") {
-            let mut target = get_attribute(&rel, "Target")?.to_string();
+            let target = get_attribute(&rel, "Target")?;
 
             let path = if let Some(p) = target.strip_prefix('/') {
                 p.to_string()
             } else {
                 // Target="../table1.xlsx"
-                target.replace_range(..2, v[0]);
-                target
+                resolve(target)?
             };
 
             let table = load_table(archive, &path, sheet_name)?;
@@ -872,8 +875,8 @@ pub(super) fn load_sheet<R: Read + std::io::Seek>(
     let mut sheet_data = SheetData::new();
     let sheet_data_nodes = ws
         .children()
-        .filter(|n| n.has_tag_name("sheetData"))
-        .collect::<Vec<Node>>()[0];
+        .find(|n| n.has_tag_name("sheetData"))
+        .ok_or_else(|| XlsxError::Xml("Corrupt XML structure: missing <sheetData>".to_string()))?;
 
     let default_row_height = 14.5;
 
@@ -1297,7 +1300,12 @@ pub(super) fn load_sheets<R: Read + std::io::Seek>(
     // load comments, tables and hyperlink relationships
     let mut sheet_rels = HashMap::new();
     for sheet in &workbook.worksheets {
-        let rel = &rels[&sheet.id];
+        let rel = rels.get(&sheet.id).ok_or_else(|| {
+            XlsxError::Xml(format!(
+                "Missing relationship '{}' for sheet '{}'",
+                sheet.id, sheet.name
+            ))
+        })?;
         if rel.rel_type.ends_with("worksheet") {
             let path = &rel.target;
             let path = if let Some(p) = path.strip_prefix('/') {
